@@ -13,6 +13,8 @@ FLAVOURS = {
     "tsan": dict(cxx=["g++"], flags=["-std=c++17", "-O1", "-g1", "-fsanitize=thread", "-DSPECTRA_VERIF", "-pthread"] + COMMON_WARN,
                  ldflags=["-pthread"]),
     "plain": dict(cxx=["clang++"], flags=["-std=c++17", "-O2", "-DSPECTRA_VERIF", "-pthread"] + COMMON_WARN, ldflags=["-pthread"]),
+    # a second compiler: behaviour the C++ standard leaves to the implementation (evaluation order of function arguments, ...) shows up as a difference
+    "gcc-plain": dict(cxx=["g++"], flags=["-std=c++17", "-O2", "-DSPECTRA_VERIF", "-pthread"] + COMMON_WARN, ldflags=["-pthread"]),
     "plain-nohook": dict(cxx=["clang++"], flags=["-std=c++17", "-O2", "-pthread"] + COMMON_WARN, ldflags=["-pthread"]),
 }
 
@@ -107,7 +109,8 @@ prop("C19", "exploration",
      "and equal to state/(2^31-1)-0.5 within 4 ulp; the orbit from 1; every seed 2i+123j (i<2^20, j<5; subsampled under ASan) with its first 64 draws; "
      "16-thread and cross-process digests; ltrace/strace purity monitor. A case is one chunk; non-trivial = chunk with at least one state; distinct by chunk id",
      [dict(name="c19_rng", sources=["c19_rng.cpp"], flavour="plain"),
-      dict(name="c19_rng_asan", sources=["c19_rng.cpp"], flavour="asan", flags=["-DC19_SUBSAMPLE"])],
+      dict(name="c19_rng_asan", sources=["c19_rng.cpp"], flavour="asan", flags=["-DC19_SUBSAMPLE"]),
+      dict(name="c19_rng_gcc", sources=["c19_rng.cpp"], flavour="gcc-plain", flags=["-DC19_SUBSAMPLE"])],
      assumptions=TRUST + ["'across platforms' is observed as independence from process, thread, ASLR layout, heap history and libc RNG/clock state on this machine only"],
      exhaustive=True, extras=[dict(name="c19_purity_monitor", fn=c19_purity)])
 
